@@ -376,6 +376,19 @@ async fn workload(mut sim: Sim, o: Opts) -> Result<Value, String> {
                     abandoned += 1;
                 }
             }
+            "storm" => {
+                // a long history of calls abandoned while their handlers run, all on one connection
+                // and in quick succession, with ordinary calls in between: nothing adds up
+                call.from = 0;
+                call.to = 1;
+                if k % 20 == 19 {
+                    call.must_succeed = true;
+                } else {
+                    req.headers_mut().insert("delay-ms".into(), "5000".into());
+                    call.abandon_after = Some(rng.gen_range(4..12));
+                    abandoned += 1;
+                }
+            }
             "sizes" => {
                 // sizes around the limits of caller and callee, for each of the four frames
                 let lims: Vec<usize> = [limits[from], limits[to]].iter().flatten().copied().collect();
@@ -452,7 +465,9 @@ async fn workload(mut sim: Sim, o: Opts) -> Result<Value, String> {
             settle(&mut sim, d).await;
             let _ = sim.connect(a, sim.addr(b), Some(sim.peer_id(b))).await;
         }
-        if k % 7 == 0 {
+        if o.mode == "storm" {
+            settle(&mut sim, 2).await;
+        } else if k % 7 == 0 {
             let d = rng.gen_range(0..30);
             settle(&mut sim, d).await;
         }
